@@ -308,6 +308,6 @@ func TestCrossGeneration(t *testing.T) {
 			}
 			return cl
 		},
-		Quick: 5000, Thorough: 40000,
+		Quick: 5000, Thorough: 30000,
 	})
 }
